@@ -9,7 +9,7 @@ src=sys.argv[4] if len(sys.argv)>4 and sys.argv[3]=='--src' else f"{OUT}/{ID}/{N
 W=f"/tmp/seed-{ID}" if R=="1" else f"/tmp/seed{R}-{ID}"
 env=dict(os.environ,GOFLAGS="-mod=mod",GOPROXY="off",GOSUMDB="off",GOTOOLCHAIN="local")
 def sh(cmd,cwd=W,timeout=1800):
-    p=subprocess.run(cmd,shell=True,cwd=cwd,env=env,stdout=subprocess.PIPE,stderr=subprocess.STDOUT,text=True,timeout=timeout)
+    p=subprocess.run(cmd,shell=True,cwd=cwd,env=env,stdout=subprocess.PIPE,stderr=subprocess.STDOUT,text=True,errors="replace",timeout=timeout)
     return p.returncode,p.stdout
 def clean():
     sh("git checkout -q -- . && git clean -fdq")
